@@ -9,7 +9,7 @@ import os
 import unicodedata
 
 from ..common import Report, REPO, AnalysisError, src
-from ..match import match_expr, match_stmts, strip_doc, unify, parse_expr
+from ..match import match_expr, match_stmts, strip_doc, unify, parse_expr, canonical
 
 FILE = 'stdnum/util.py'
 
@@ -17,7 +17,7 @@ FILE = 'stdnum/util.py'
 def load_util():
     path = os.path.join(REPO, FILE)
     with open(path, encoding='utf-8') as fh:
-        tree = ast.parse(fh.read())
+        tree = canonical(ast.parse(fh.read()))      # list comprehensions consumed by join()/dict() read as generator expressions
     funcs = {n.name: n for n in tree.body if isinstance(n, ast.FunctionDef)}
     assigns = {}
     for n in tree.body:
@@ -32,6 +32,16 @@ def derive_table(rep=None):
     cand = None
     for name, n in assigns.items():
         b = match_expr('dict(V_mk(E_table))', n.value)
+        if b and isinstance(b['E_table'], ast.Name) and b['E_table'].id in assigns and isinstance(assigns[b['E_table'].id].value, ast.Dict):
+            # the literal table bound to a module-level name first; nobody else may write that name
+            tname = b['E_table'].id
+            stores = [x for x in ast.walk(tree) if isinstance(x, ast.Name) and x.id == tname and isinstance(x.ctx, ast.Store)]
+            muts = [x for x in ast.walk(tree) if isinstance(x, ast.Subscript) and isinstance(x.ctx, (ast.Store, ast.Del)) and src(x.value) == tname] + \
+                [x for x in ast.walk(tree) if isinstance(x, ast.Call) and isinstance(x.func, ast.Attribute) and src(x.func.value) == tname
+                 and x.func.attr in ('update', 'pop', 'clear', 'setdefault', 'popitem')]
+            if len(stores) == 1 and not muts:
+                b = dict(b)
+                b['E_table'] = assigns[tname].value
         if b and isinstance(b['E_table'], ast.Dict):
             cand = (name, n, b)
     if cand is None:
